@@ -63,6 +63,12 @@ def projLookupTable_FromP3 (_v : Array Cached) (q : P3) : Array Cached := Point.
 def affineLookupTable_FromP3 (_v : Array AffineCached) (q : P3) : Array AffineCached := Point.affineTable q
 def nafLookupTable5_FromP3 (_v : Array Cached) (q : P3) : Array Cached := Point.naf5Table q
 
+-- scalarmult.go: the two constant-time scalar multiplications (64 unrolled iterations each).  The digit recoding
+-- (`Scalar.radix16Digits`, total version of `Scalar.signedRadix16`) and the table selections are primitives of the
+-- translation; `Point.scalarMult x q = .ok (Point.scalarMultDigits d q)` whenever `Scalar.signedRadix16 x = .ok d` by definition.
+def Point_ScalarMult (_v : P3) (x : W4) (q : P3) : P3 := Point.scalarMultDigits (Scalar.radix16Digits x) q
+def Point_ScalarBaseMult (_v : P3) (x : W4) : P3 := Point.scalarBaseMultDigits (Scalar.radix16Digits x)
+
 -- addition chains (constant-trip loops, unrolled by the translator)
 def field_Element_Invert (_v z : Fe) : Fe := Fe.invert z
 def field_Element_Pow22523 (_v x : Fe) : Fe := Fe.pow22523 x
